@@ -10,11 +10,11 @@ CLAIMED = {
              text="Keystream == ChaCha specification: leaf contract of guts::round per backend (full domain), spec lemma standard double round == row formulation, wiring of every core entry point against the specification for symbolic key/nonce/64-bit counter on every dispatch arm, XOR/frame contract of try_apply_keystream from an arbitrary invariant state, and the initial state of all 7 cipher types (HChaCha for XChaCha).",
              note="Bounded in per-call length only (<= 448 bytes per shape; quick: boundary shapes and drounds subset, thorough: dense grid, all drounds 0..=10). Trusted: Kani/CBMC, instruction and CPUID models, the uninterpreted-function rule (DESIGN.md 3.2).",
              ref="DESIGN.md 4 C01"),
- "C02": dict(technique="Kani contracts: representation invariant Inv(P) on Buffer; try_apply_keystream / try_seek (7 integer types) / try_current_pos contracts from an arbitrary Inv state",
+ "C02": dict(technique="Kani contracts: representation invariant Inv(P) on Buffer; try_apply_keystream / try_seek (7 integer types) / try_current_pos contracts from an arbitrary Inv state; Verus induction over histories (verus/history.rs)",
              text="Every operation is proved from an arbitrary state satisfying the representation invariant (symbolic counter incl. exhausted and fresh states, symbolic buffer, lazily pending block), so every history is covered by induction over operations; panics and overflow are checked in the same obligations.",
              note="apply is proved per (buffer fill, length) shape, length <= 448; seek/current_pos are loop-free and full domain. refill/refill4 replaced by their contracts (proved under C01).",
              ref="DESIGN.md 4 C02/C11"),
- "C11": dict(technique="Kani contracts (same obligations as C02 read at the limits): Ok iff the request ends within 2^38 / 2^70 bytes, atomic error, seek-to-limit, nonce word frame",
+ "C11": dict(technique="Kani contracts (same obligations as C02 read at the limits): Ok iff the request ends within 2^38 / 2^70 bytes, atomic error, seek-to-limit, nonce word frame; Verus induction over histories (verus/history.rs)",
              text="Exhaustion: Ok iff position+length <= limit, error leaves data, position and invariant unchanged, seek past the end is an error, the IETF nonce word is never disturbed by the counter.",
              note="as C02", ref="DESIGN.md 4 C02/C11"),
  "C14": dict(technique="Kani contracts: refill and refill4 both proved equal to the same specification (block of counter+i, counter advance by 1/4 modulo 2^64, stream id frame) on every dispatch arm",
@@ -23,9 +23,9 @@ CLAIMED = {
  "C15": dict(technique="Kani function-level contracts, loop-free, full domain",
              text="set/get stream parameter round trip and isolation, equality with the directly constructed state, stream32_eq/stream64_eq as bi-implications, ChaCha::new layouts.",
              note="Trusted: Kani/CBMC.", ref="DESIGN.md 4 C15"),
- "C09": dict(technique="Kani contracts: mix/inv_mix, key schedule, LE word I/O (full domain); byte-level wiring of encrypt_block for an arbitrary subkey table with mix as uninterpreted function, unrolled and no_unroll builds",
+ "C09": dict(technique="Kani contracts: mix/inv_mix, key schedule, LE word I/O (full domain); byte-level wiring of encrypt_block for an arbitrary subkey table with mix as uninterpreted function, unrolled and no_unroll builds; Verus loop invariants on the mechanically extracted encrypt/key-schedule code",
              text="Encryption == Skein 1.3 Threefish for all keys, tweaks and blocks of the three sizes in both feature settings: 72/72/80 rounds, rotation schedule, permutation, subkey injection, final subkey, little-endian I/O.",
-             note="Trusted: Kani/CBMC, the uninterpreted-function rule. The Verus route on extracted code (DESIGN.md 4 C09) is not built; the Kani route is complete on its own.",
+             note="Trusted: Kani/CBMC, the uninterpreted-function rule. Second route: Verus on the functions extracted mechanically from rustc's macro expansion of threefish-cipher on every run (key schedule, process_block/encrypt loops, both feature settings), closed rewrite list in lib/verus_extract.py.",
              ref="DESIGN.md 4 C09"),
  "C10": dict(technique="Kani contracts (decrypt wiring == specification inverse rounds; per-round two-sided inverse lemma with the real MIX) + Verus induction lemma over the rounds",
              text="decrypt_block == the specification's inverse rounds in reverse order (byte level, arbitrary subkeys); every round and the final subkey are two-sided inverses (Kani, real MIX); composition over all rounds by a Verus induction lemma.",
@@ -59,7 +59,7 @@ CLAIMED = {
              text="Configuration UBI block carrying N, lazy message UBI with first/final flags and byte position, single zero block for the empty message, counter-mode output blocks truncated to N bytes, for output sizes N in a stated finite set, from an arbitrary state (symbolic chaining value and position).",
              note="process_block == one UBI step (key = chaining value, tweak = position/flags, Threefish of the block xor the block) is proved on the real code with MIX as uninterpreted function against the same Threefish specification as C09; MIX itself by the mix contract. N ranges over {1,7,8,20,32,33,64,65} x256, {1,32,64,65} x512, {1,32,64,128,129,200} x1024. Skein256/512<200> dropped: Kani false alarm on the 8-byte tail chunk, cross-checked natively (DESIGN.md 8).",
              ref="DESIGN.md 4 C05"),
- "C06": dict(technique="Kani contracts on the mode of operation with Compressor::input as uninterpreted function + call log",
+ "C06": dict(technique="Kani contracts on the mode of operation with Compressor::input as uninterpreted function + call log; F8 wiring and bit-slice == E8 contracts; Verus conjugation lemma",
              text="Compression function F8 == the JH specification's E8 with the message XORs (see note) on every backend; padding (one block iff block-aligned, else two), 128-bit big-endian bit length, chaining, output = tail of the 1024-bit state, byte counter exact -- for a symbolic chaining value and byte count; initial values.",
              note="F8: ss / l leaf contracts per backend and the wiring of Compressor::input (42 rounds, round-constant selection, swap schedule, message XORs) through the real dispatch. Bit-sliced F8 == the specification's nibble-oriented E8: the bit-slice formulation the crate is proved equal to is related to the JH document's E8 (256 four-bit elements, S0/S1, L, P8, grouping) by computed round-dependent layouts: grouping/de-grouping (J1), one round for each of the 7 layout classes with symbolic state and constant (J2), the 42 bit-sliced round constants decode to C_r = R6(C_{r-1}) from the sqrt(2) seed (J3), layouts well formed and 7-periodic (J4), composed by a Verus conjugation lemma; initial values == F8(digest-size block, 0). Remaining trust: the instantiation of the generic Verus lemma and the swap operations' C12 contracts.",
              ref="DESIGN.md 4 C06"),
@@ -67,11 +67,11 @@ CLAIMED = {
              text="Compression function == specification P and Q (see note); IV = output size big-endian, padding with the 64-bit big-endian block count including padding blocks for every 64-bit counter value, one-vs-two final blocks at the <=8-bytes-left boundary, output transformation and truncation windows, reset of the truncated variants.",
              note="Compression function: one round of P||Q (512) and submix after the spec-derived pre-shuffle (1024, P and Q shift vectors) are proved equal to AddRoundConstant/SubBytes/ShiftBytes/MixBytes of the specification for EVERY byte substitution table (AESENCLAST modelled as ShiftRows, table lookup, xor key: trusted instruction model; the specification's S-box is the AES S-box); tf512/of512/tf1024/of1024/init wiring with the round layer as uninterpreted function against h ^ P(h^m) ^ Q(m) and trunc(P(h)^h); mul2 and the matrix transposes by leaf contracts. The #[target_feature] wrapper modules and the lazy_static function-pointer table selected from CPUID are proved to forward to the matching *_impl with unchanged arguments (CPUID model: SSE2-only, SSSE3, AES).",
              ref="DESIGN.md 4 C07"),
- "C08": dict(technique="Kani contracts: abstract-view contract of update ('the stream view grows by exactly the bytes given') from an arbitrary state for all 15 hash types; clone independence; reset/default equality",
+ "C08": dict(technique="Kani contracts: abstract-view contract of update ('the stream view grows by exactly the bytes given') from an arbitrary state for all 15 hash types; clone independence; reset/default equality; Verus lemma: any partition folds to the same abstract state (verus/chunking.rs)",
              text="update compresses exactly the complete blocks of pending++data in order with the right counters and keeps the remainder; a hasher's state is a function of the stream view, so every partition gives the same state; clone and reset contracts.",
-             note="Per-call shapes (fill, length <= 300). The partition-invariance step (associativity of concatenation over the abstract view) is a meta-level argument, DESIGN.md 4 C08.",
+             note="Per-call shapes (fill, length <= 300). The partition-invariance step (eager and lazy buffering, any sequence of pieces) is the Verus lemma verus/chunking.rs over the per-call contract; its instantiation to the Kani contract is by inspection.",
              ref="DESIGN.md 4 C08"),
- "C17": dict(technique="Kani contracts: the counters are symbolic over their full range in the finalize/update contracts of every hash type",
+ "C17": dict(technique="Kani contracts: the counters are symbolic over their full range in the finalize/update contracts of every hash type; Verus contract on the extracted BLAKE increase_count (two-word carry)",
              text="BLAKE t (64/128-bit, carry between the words), Groestl block_counter (all 64 bits), JH datalen (< 2^61 bytes), Skein byte position (< 2^64) are symbolic in the mode-of-operation obligations, so every word-boundary crossing is covered.",
              note="Format limits are preconditions (no wrap of the 2W-bit BLAKE counter, JH bit length < 2^64, Skein position < 2^64).",
              ref="DESIGN.md 4 C17"),
@@ -115,6 +115,8 @@ def main():
         },
         "engines": [
             {"name": "kani", "path": "/verif/lib/kanirun.py", "serves_properties": sorted(CLAIMED), "kind_free_text": "Kani 0.68 contracts/harnesses on the real crates, CBMC 6.11 + CaDiCaL"},
+            {"name": "verus", "path": "/verif/lib/verusrun.py", "serves_properties": ["C02", "C06", "C08", "C09", "C10", "C11", "C17"], "kind_free_text": "Verus 0.2026.09.13 + Z3: loop invariants on code extracted mechanically from rustc's expansion (lib/verus_extract.py), and induction lemmas over the Kani contracts"},
+            {"name": "refcheck", "path": "/verif/lib/refcheck.py", "serves_properties": ["C01", "C02", "C04", "C05", "C06", "C07", "C08", "C09", "C10", "C11", "C14", "C17"], "kind_free_text": "native search for a concrete failing input behind a violated obligation (real crates vs references assembled from spec/*.rs); replay support only, never counted as an obligation"},
         ],
         "checks": checks,
         "not_applicable": na,
@@ -123,6 +125,6 @@ def main():
     json.dump(m, open(os.path.join(VERIF, "MANIFEST.json"), "w"), indent=1)
     print("MANIFEST.json written:", len(checks), "checks")
 
-HOOK_COMMITS = ['a29741f', '70deee0', '7dd6e23', '8d14d16', '0a1406b', 'a088e70']
+HOOK_COMMITS = ['08d26ed', '3aa2f4a', 'a29741f', '70deee0', '7dd6e23', '8d14d16', '0a1406b', 'a088e70']
 if __name__ == "__main__":
     main()
